@@ -132,7 +132,7 @@ def _sh_dense(tier):
 
 def _sh_sparse(tier):
     if tier == "quick":
-        return product_pins(kind=[0], n=[3], k=[1], m=[2, 3], starts=[1, 3], finals=[4, 6], perm=[0, 3],
+        return product_pins(kind=[0], n=[3], k=[1], m=[2], starts=[1, 3], finals=[4, 6], perm=[0, 3],
                             unbounded=[False])
     return product_pins(kind=[0], n=[3], k=[1, 2], m=[2, 3, 4], starts=[1, 3, 5], finals=[2, 4, 6],
                         perm=[0, 2, 3], unbounded=[False, True])
@@ -151,7 +151,7 @@ CONDS = [
           "thorough": "all 2^12 automata per class x symbolic bound -1..3 and None"},
          FUNCS, RULE, assumptions=["n=None judged only when the oracle says the language is finite"]),
     Cond("C04", c04_sparse, _sh_sparse,
-         {"quick": "eps-NFA 3 states over {a}, 2-3 edges, starts {0}/{0,1}, finals {2}/{1,2}, 2 label permutations "
+         {"quick": "eps-NFA 3 states over {a}, 2 edges, starts {0}/{0,1}, finals {2}/{1,2}, 2 label permutations "
                    "(visiting orders) x symbolic bound -1..3",
           "thorough": "3 states, k<=2, 2-4 edges, 3 start masks x 3 final masks x 3 permutations, bounds and None"},
          FUNCS, RULE),
